@@ -3,7 +3,8 @@
 
 request   {"op": add|sub|mul|div|floordiv|pow, "e1": [[cat,unit,exp],..], "c1": caption, "v1": "n/d",
            "e2": .., "c2": .., "v2": ..   (binary operators)   |   "n": int   (pow)}
-answer    {"ok": {"e": [[cat,unit,exp],..], "cap": caption, "derived": bool}, "v": "n/d", "M": "n/d", "br": [..]
+answer    {"ok": {"e": [[cat,unit,exp],..], "cap": caption, "derived": bool}, "v": "n/d", "M": "n/d", "br": [..],
+           "T": [[quantity type, exp],..]  (what the result reports as its quantity type, `Alg.reportedTypes`)
            [, "quot": "n/d"  (floordiv: the exact matched quotient)]}   |   {"err": kind, "br": [..]}
            ("br": the branches of the modelled functions this request went through; "F": the largest
            |ratio ** exp| of the matching, the only float operation of the modelled code that raises OverflowError;
@@ -15,6 +16,7 @@ before by its slope; sums add the magnitudes of the two matched operands, produc
 relatively.  The harness accepts |float - exact| <= 64 * 2^-53 * max(M, |exact|). -/
 import Barril.Model.Proto
 import Barril.Model.Alg
+import Barril.Model.AlgType
 import Barril.Gen.Dbs
 open Lean Barril Barril.Proto Barril.Alg
 
@@ -165,6 +167,13 @@ def entryJ (e : Entry) : Json := Json.arr #[symJ e.cat, symJ e.unit, .str (toStr
 def quantityJ (q : Quantity) : Json :=
   Json.mkObj [("e", Json.arr (q.entries.map entryJ).toArray), ("cap", symJ q.caption), ("derived", .bool q.derived)]
 
+/-- "T": the dimension vector the result REPORTS through its quantity type (`reportedTypes`: `rep_and_exp` of
+`Quantity.__init__` without the zero exponents `_MakeStr` does not write), in the order of the string -/
+def typesJ (db : Db) (q : Quantity) : List (String × Json) :=
+  match reportedTypes db q.entries with
+  | .error _ => []
+  | .ok l => [("T", Json.arr (l.map (fun p => Json.arr #[symJ p.1, .str (toString p.2)])).toArray)]
+
 def parseEntry (j : Json) : Except String Entry :=
   match j with
   | .arr #[.str c, .str u, .str x] =>
@@ -210,12 +219,49 @@ def bothFactor (db : Db) (q1 q2 : Quantity) (v1 v2 : Rat) : Rat :=
     maxR (matchFactor db (isDerivedDict q1.entries) [] q1.entries v1 0)
       (matchFactor db (isDerivedDict q2.entries) used q2.entries v2 0)
 
+/-! "R": the smallest non-zero and the largest magnitude the exact evaluation goes through (operand values, every
+matched intermediate value, every conversion factor, the result).  The harness judges the VALUE of a case computed
+in float32 arrays only when this range lies well inside the float32 normal range. -/
+
+def rangeAdd (r : Rat × Rat) (x : Rat) : Rat × Rat :=
+  let a := absR x
+  if a == 0 then r else (if r.1 == 0 || a < r.1 then a else r.1, maxR r.2 a)
+
+def matchRange (db : Db) (inD : Bool) : List (Sym × Sym) → List Entry → Rat → Rat × Rat → Rat × Rat
+  | _, [], _, r => r
+  | used, e :: es, v, r =>
+    match catQType db e.cat with
+    | .error _ => r
+    | .ok qt =>
+      match lookupU qt used with
+      | none => matchRange db inD ((qt, e.unit) :: used) es v r
+      | some w =>
+        match convertMatchingExp db qt e.unit w e.exp v inD with
+        | .error _ => r
+        | .ok v1 =>
+          let r1 := rangeAdd r v1
+          let r2 := match convertMatchingExp db qt e.unit w e.exp 1 inD, convertMatchingExp db qt e.unit w e.exp 0 inD with
+            | .ok c1, .ok c0 => rangeAdd (rangeAdd r1 (c1 - c0)) c0
+            | _, _ => r1
+          matchRange db inD used es v1 r2
+
+def bothRange (db : Db) (q1 q2 : Quantity) (v1 v2 : Rat) : Rat × Rat :=
+  let r0 := rangeAdd (rangeAdd (0, 0) v1) v2
+  let r1 := matchRange db (isDerivedDict q1.entries) [] q1.entries v1 r0
+  match matchOne db (isDerivedDict q1.entries) [] q1.entries v1 with
+  | .error _ => r1
+  | .ok (used, _, _) => matchRange db (isDerivedDict q2.entries) used q2.entries v2 r1
+
+def rangeJ (rg : Rat × Rat) (v : Rat) : List (String × Json) :=
+  let r := rangeAdd rg v
+  [("R", Json.arr #[ratJ r.1, ratJ r.2])]
+
 def answer (r : Except ErrKind (Quantity × Rat)) (m : Rat) (tags : List String) (extra : List (String × Json) := [])
     (f : Rat := 0) : Json :=
   match r with
   | .error e => Json.mkObj ([("err", .str e.name), ("F", ratJ f)] ++ brJ tags)
   | .ok (q, v) => Json.mkObj ([("ok", quantityJ q), ("v", ratJ v), ("M", ratJ (maxR m (absR v))), ("F", ratJ f)]
-      ++ brJ (shapeTag q :: tags) ++ extra)
+      ++ typesJ Gen.poscDb q ++ brJ (shapeTag q :: tags) ++ extra)
 
 def handle (j : Json) : Except String Json := do
   let db := Gen.poscDb
@@ -236,17 +282,26 @@ def handle (j : Json) : Except String Json := do
         else
           let (n1, n2) := matchedMags db q1.entries q2.entries v1 v2 (absR v1) (absR v2)
           n1 + n2
-      pure (answer (opSame db sop q1 q2 v1 v2) m (sameTags db q1 q2 v1 v2) [] (bothFactor db q1 q2 v1 v2))
+      let res := opSame db sop q1 q2 v1 v2
+      let rg := if q1.eqv q2 then rangeAdd (rangeAdd (0, 0) v1) v2 else bothRange db q1 q2 v1 v2
+      pure (answer res m (sameTags db q1 q2 v1 v2) (rangeJ rg (match res with | .ok (_, v) => v | .error _ => 0))
+        (bothFactor db q1 q2 v1 v2))
     | "mul" => pure (answer (opNew db .mul q1 q2 v1 v2) (newMag db .mul q1 q2 v1 v2 (absR v1) (absR v2))
-        (newTags db .mul q1 q2 v1 v2) [] (bothFactor db q1 q2 v1 v2))
+        (newTags db .mul q1 q2 v1 v2)
+        (rangeJ (bothRange db q1 q2 v1 v2) (match opNew db .mul q1 q2 v1 v2 with | .ok (_, v) => v | .error _ => 0))
+        (bothFactor db q1 q2 v1 v2))
     | "div" =>
       let (_, w2) := matchedVals db q1.entries q2.entries v1 v2
       pure (answer (opNew db .div q1 q2 v1 v2) (newMag db .div q1 q2 v1 v2 (absR v1) (absR v2))
-        (newTags db .div q1 q2 v1 v2) [("D", ratJ (absR w2))] (bothFactor db q1 q2 v1 v2))
+        (newTags db .div q1 q2 v1 v2) ([("D", ratJ (absR w2))] ++
+          rangeJ (bothRange db q1 q2 v1 v2) (match opNew db .div q1 q2 v1 v2 with | .ok (_, v) => v | .error _ => 0))
+        (bothFactor db q1 q2 v1 v2))
     | "floordiv" =>
       let (w1, w2) := matchedVals db q1.entries q2.entries v1 v2
       pure (answer (opNew db .floordiv q1 q2 v1 v2) (newMag db .div q1 q2 v1 v2 (absR v1) (absR v2))
-        (newTags db .floordiv q1 q2 v1 v2) [("quot", ratJ (w1 / w2)), ("D", ratJ (absR w2))] (bothFactor db q1 q2 v1 v2))
+        (newTags db .floordiv q1 q2 v1 v2) ([("quot", ratJ (w1 / w2)), ("D", ratJ (absR w2))] ++
+          rangeJ (bothRange db q1 q2 v1 v2) (if w2 == 0 then 0 else w1 / w2))
+        (bothFactor db q1 q2 v1 v2))
     | _ => throw s!"unknown op {op}"
 
 def step (j : Json) : Json :=
